@@ -191,7 +191,7 @@ where
                         fields.push(("flags".into(), format!("{:#04x}", ad.flags)));
                         fields.push(("rpIdHash".into(), hex_short(&ad.rp_id_hash)));
                         fields.push(("counter".into(), ad.counter.to_string()));
-                        fields.push(("attested".into(), ad.attested.as_ref().map(|a| format!("aaguid {} idlen {} keylen {}", hex_short(&a.aaguid), a.cred_id.len(), a.key_bytes.len())).unwrap_or_default()));
+                        fields.push(("attested".into(), ad.attested.as_ref().map(|a| format!("aaguid {} idlen {} key {}", hex_short(&a.aaguid), a.cred_id.len(), key_shape(&a.key_bytes))).unwrap_or_default()));
                         fields.push(("ext".into(), format!("{:?}", ad.extensions)));
                     }
                     fields.push(("fmt".into(), resp.fmt.clone()));
@@ -359,4 +359,16 @@ pub fn run(args: &Args) -> Report {
         rep.inconclusive("an operation was never compared on a successful request".into());
     }
     rep
+}
+
+/// Key type / algorithm / curve of a COSE key (the key material itself is fresh per registration and
+/// is not compared between the two routes).
+fn key_shape(bytes: &[u8]) -> String {
+    match ciborium::de::from_reader::<ciborium::Value, _>(bytes) {
+        Ok(ciborium::Value::Map(m)) => {
+            let get = |label: i64| m.iter().find(|(k, _)| k.as_integer().map(i128::from) == Some(i128::from(label))).map(|(_, v)| format!("{v:?}")).unwrap_or_else(|| "-".into());
+            format!("kty {} alg {} crv {}", get(1), get(3), get(-1))
+        }
+        _ => "undecodable".into(),
+    }
 }
